@@ -539,7 +539,7 @@ RULES = [r1, r2, r3, r4, r5, r6, r7, r8, r8b, r8c, r9]
 EXPLANATION = ("C02 (crash recovers to before-or-after): decides the write-ahead ordering premises on the CFG of every mutating entry point — "
                "data write before oplog entry, entry write ?-checked before any in-memory commit, commits before the periodic flush (append R1, proof apply R2), "
                "drop entry before destructive delete (clear R3), bitfield -> tree -> header order of the flush (R4), header content before truncate and the "
-               "three-info shape of a trace-clearing flush (R5), in-order one-mutation-per-info issue loop of Storage::flush_infos (R6), stale entries gated by "
+               "order [header write, truncate, header write] of a trace-clearing flush — every header write flips the current header bit, so the log is emptied between the two (R5), in-order one-mutation-per-info issue loop of Storage::flush_infos (R6), stale entries gated by "
                "the header bit on open (R7) and the log tail offset restored on open, counting every accepted entry to the end of its payload (R8), and the StoreInfo constructor table agreeing with the dispatch of Storage::flush_infos (R9).")
 NOT_DECIDED = ("idempotence of replay over partially flushed bitfield/tree; correctness of the header-bit rotation table; atomicity of backend operations; "
                "which state a given crash point recovers to.")
